@@ -896,3 +896,96 @@ pub fn run(rep: &mut Report) {
     rep.floor("free_barrier_windows_observed", 1_000);
     rep.assumptions.push("interleavings are sampled at the granularity of the hook points (one per shared-memory access in blocking.rs and biatomic.rs); they are not enumerated exhaustively".to_string());
 }
+
+// ---------------------------------------------------------------------------------------------
+// Timeout leg: the blocking phase of a real migration task ends by `migration_max_blocking_time`
+// (the destination never acknowledges PRESWITCH). The barrier must then be lifted: commands that
+// were queued during blocking are re-dispatched and answered, none stays queued.
+
+pub async fn run_timeout_one(rep: &mut Report, sub_seed: u64, table: std::sync::Arc<Vec<Vec<u8>>>) {
+    use crate::migsim::*;
+    use crate::sim::*;
+    use std::time::Duration;
+    let mut rng = Rng::new(sub_seed);
+    let max_blocking = MAX_BLOCKING_MS.load(Ordering::SeqCst);
+    let mut opts = gen_opts(&mut rng);
+    opts.proxy.active_redirection = false;
+    let sc = match MigScenario::setup(&opts).await {
+        Ok(s) => s,
+        Err(_) => return rep.count("timeout_leg_setup_refused", 1),
+    };
+    if sc.start_resize(opts.to_nodes).await.is_err() {
+        return rep.count("timeout_leg_setup_refused", 1);
+    }
+    let migs = sc.migrations().await;
+    if migs.is_empty() {
+        return;
+    }
+    // PRECHECK passes, PRESWITCH is never answered
+    for m in migs.iter() {
+        sc.open("PRECHECK", &m.meta.dst_proxy_address);
+    }
+    let mut blocked = vec![];
+    for m in migs.iter() {
+        let rk = range_key(&m.ranges);
+        if sc.wait_state(&m.meta.src_proxy_address, &rk, &["PRE_SWITCH"], 200).await.as_deref() == Some("PRE_SWITCH") {
+            blocked.push(m.clone());
+        }
+    }
+    if blocked.is_empty() {
+        return rep.count("timeout_leg_no_source_in_blocking_phase", 1);
+    }
+    let ctx = json!({"sub_seed": sub_seed, "leg": "blocking-timeout", "from_nodes": opts.from_nodes, "to_nodes": opts.to_nodes, "migration_max_blocking_time_ms": max_blocking});
+    let mut probes = vec![];
+    for m in blocked.iter() {
+        for i in 0..rng.urange(1, 3) {
+            let (s, e) = *rng.pick(&m.ranges);
+            let slot = rng.urange(s, e);
+            let mut key = b"{".to_vec();
+            key.extend_from_slice(&table[slot]);
+            key.extend_from_slice(format!("}}q{}", i).as_bytes());
+            let argv = vec![b"SET".to_vec(), key, b"queued".to_vec()];
+            let p = match sc.sys.net.proxy(&m.meta.src_proxy_address) {
+                Some(p) => p,
+                None => continue,
+            };
+            let argv2 = argv.clone();
+            probes.push((tokio::spawn(async move { p.cmd(argv2).await }), slot, m.meta.src_proxy_address.clone()));
+        }
+    }
+    tokio::time::sleep(Duration::from_millis(50)).await;
+    let parked = probes.iter().filter(|p| !p.0.is_finished()).count();
+    rep.count("timeout_leg_commands_queued_during_blocking", parked as u64);
+    // the timeout fires, the barrier is lifted (bounded: twice the configured time and two seconds on top)
+    tokio::time::sleep(Duration::from_millis(2 * max_blocking + 2000)).await;
+    rep.evaluations += 1;
+    rep.count("timeout_leg_scenarios", 1);
+    rep.distinct(format!("timeout|{}|{}|{}", opts.from_nodes, opts.to_nodes, parked).as_bytes());
+    let mut stuck = vec![];
+    for (h, slot, src) in probes.iter() {
+        if !h.is_finished() {
+            stuck.push(format!("SET for slot {} at {}", slot, src));
+        }
+    }
+    if !stuck.is_empty() {
+        rep.violation(
+            "C11:commands-stay-queued-after-blocking-timed-out",
+            format!("{} ms after a blocking phase limited to {} ms began, {} command(s) are still queued: {}", 2 * max_blocking + 2050, max_blocking, stuck.len(), stuck.join(", ")),
+            ctx.clone(),
+        );
+    } else {
+        rep.count("timeout_leg_commands_answered_after_timeout", probes.len() as u64);
+    }
+    for (h, _, _) in probes {
+        h.abort();
+    }
+}
+
+pub fn run_timeout_leg(rep: &mut Report, n: u64) {
+    crate::migsim::MAX_BLOCKING_MS.store(400, Ordering::SeqCst);
+    let table = std::sync::Arc::new(crate::crc::slot_keys());
+    crate::c02::run_sharded(rep, n, 8, move |local, sub, rt| {
+        crate::run_guarded!(rt, local, "C11", sub, 2_000_000u64, run_timeout_one(local, sub ^ 0x71e0, table.clone()));
+    });
+    crate::migsim::MAX_BLOCKING_MS.store(0, Ordering::SeqCst);
+}
